@@ -3,7 +3,8 @@
 import os
 
 # which repairs the checked tree contains: "pinned" (before a779db8), "fixed_F2" (a779db8 = fixes/C08-F2.diff applied),
-# "before_F5" (a779db8, 72ba5d4, 41fd1db), "repaired" (additionally 6d0a3af; the tree as it is now).
+# "before_F5" (a779db8, 72ba5d4, 41fd1db), "repaired" (additionally 6d0a3af, 5270ed2; the tree as it is now),
+# "repaired_F6" (additionally the candidate fixes/C08-F6.diff).
 FX = os.environ.get("VERIF_C08_FX", "repaired")
 
 P = {
@@ -52,43 +53,62 @@ P = {
         "eval_module": "Run.Eval_GoUrl", "check_term": "check",
         "n_quick": 2500, "n_thorough": 40000, "findings": {},
     }],
-    "rule": "envoy: the same generator and corpus, both spellings handed to grpcv3.NewRequestContext + the real executor.  requests: a base path of 1-4 segments (words, values with escapes of unreserved/reserved octets, %2F/%2f, "
-            "place-holder text, bytes net/url rejects, malformed escapes), 1-4 rules derived from it (literal / :wildcard / "
-            "*catch-all per position, path_params on the decoded or encoded value, all three allow_encoded_slashes settings, "
-            "forward_to with/without rewrite), default rule in 40%, and an equivalent re-encoding of the path (unreserved "
-            "octets encoded in either hex case, escapes of unreserved octets decoded, hex case of other escapes swapped; on the "
-            "whole path or inside one segment); both spellings are sent byte for byte over TCP to a real net/http server whose "
-            "handler runs the real requestcontext + repository + rule executor.  "
-            "Non-trivial = the request reaches heimdall, a rule set is loaded, and the two spellings differ or the path has an "
-            "encoded slash; distinct by hash of the input.  units: rule_impl.go unescape on concatenations of escapes, "
-            "place-holder fragments and malformed escapes.  gourl: net/url (unescape/escape/setPath/EscapedPath/RequestURI/"
-            "ParseQuery/Encode) and heimdall's URL rewriter on random and edge byte strings.",
+    "rule": ("requests (net/http origin-form), envoy (grpcv3 request context; target with and without ?query in the path "
+            "attribute), xfu (HTTP server, target in X-Forwarded-Uri, the proxy's own request goes to /zz-own): a base path of 1-4 "
+            "(3%: 17-40) segments built from words, pool values and RANDOM token strings (unreserved octets, sub-delimiters, escapes of "
+            "arbitrary octets incl. %00 %5C %3F %23 %3B %2F %25 in either hex case; 2%: one segment > 2 KiB), bytes net/url rejects, "
+            "malformed escapes; 1-4 rules derived from it (literal / :wildcard / *free wildcard per position; path_params exact, glob or "
+            "regex [the answers of the real gobwas/glob / regexp matcher on every piece of the path in three decodings are recorded as the "
+            "model's oracle table; glob/regex only on paths of <= 6 segments], all three allow_encoded_slashes settings, rule-level error "
+            "handler that swallows errors on 40%, forward_to with/without rewrite), default rule in 40%, random method (GET/POST/OPTIONS/"
+            "HEAD/PUT/DELETE), and an equivalent re-encoding of the path.  Every case is run on a fresh repository (the compared "
+            "observation) AND on a second repository after a history of non-equivalent twins (encoded slashes decoded, every % encoded "
+            "once more, the fully decoded path, a miss), in the other order; the repeated answers must equal the first ones (o_stable).  "
+            "Non-trivial = the request reaches heimdall, a rule set is loaded, and the two spellings differ or the path has an encoded "
+            "slash; distinct by hash of the input.  units: rule_impl.go unescape on concatenations of escapes and malformed escapes.  "
+            "gourl: net/url (unescape/escape/setPath/EscapedPath/RequestURI/ParseQuery/Encode) and heimdall's URL rewriter on random and "
+            "edge byte strings."),
     "anchors": ["internal/rules/rule_impl.go", "internal/rules/route_matcher.go", "internal/rules/repository_impl.go",
                 "internal/rules/config/encoded_slash_handling.go", "internal/rules/config/backend.go",
                 "internal/rules/config/url_rewriter.go", "internal/handler/requestcontext/extract_url.go"],
-    "trusted": ["the radix tree is abstracted to a segment-wise search (static > wildcard > catch-all, backtracking on, routes "
-                "of a node in insertion order); its faithful model and findings are C02/C03's; the abstraction is compared with "
-                "the real tree on every case of the requests stream",
+    "trusted": ["the radix tree is abstracted to a segment-wise search (static > wildcard > free wildcard, backtracking on, routes "
+                "of a node in insertion order; dfs_fast = dfs proved); its faithful model and findings are C02/C03's; the abstraction is "
+                "compared with the real tree on every case of the three request streams",
                 "net/url and strings functions are mirrored in Base/GoUrl.v and compared with the Go standard library on "
-                "every run (stream gourl)",
-                "path_params matchers are `exact` only (glob/regex engines are C03's oracles)",
-                "the pipeline behind Execute accepts (stub authenticator); Backend.CreateURL/URLRewriter are C15's model"],
-    "level_text": "Proof (kernel-checked, no axioms) over a Gallina model of net/http target parsing, extractURL, FindRule's "
-                  "choice of the raw path, the route lookup (segment-wise), pathParamMatcher and ruleImpl.Execute: for ALL "
-                  "rule sets, default-rule settings, request paths and ALL equivalent re-encodings, the answer kind, the rule "
-                  "and the captured values are unchanged outside the guard of finding C08-F1; a path with %2F/%2f is "
-                  "never accepted by an `off` rule or the default rule outside C08-F4; captured values are the decoded pieces of the path "
-                  "(`no_decode`: all but the encoded slash; the piece-by-piece decoding is proved correct without a guard, the earlier place-holder trick outside C08-F2/F5) and the upstream raw path is kept / dropped, outside C08-F4.  Each guard has a `_refuted` witness.  The model is tied "
-                  "to the code by three differential streams per run (~1000 request pairs through the real net/http server/"
-                  "repository/executor, ~500 through the real Envoy request context, ~1500 unescape units, ~2500 net/url cases; "
-                  "30000/15000/30000/40000 in the thorough tier).",
-    "level_note": "Trusted: Coq kernel/vm_compute; the correspondence harness (generator, stub authenticator, Gallina rendering); "
-                  "the radix tree abstracted to a segment-wise search (C02/C03 own the tree), generator restricted to inputs "
-                  "exact path_params only.  Open findings C08-F1/F4 are guarded, observed on every run from the driver's corpus "
-                  "and documented by `_refuted` theorems; C08-F2, C08-F3 and C08-F5 were repaired by fix: commits a779db8, 72ba5d4 and 6d0a3af (theorems are stated "
-                  "for the repaired tree, the earlier behaviour is kept as `_pinned_refuted`); the model is parametric in the repairs.",
-    "assumptions": ["requests reach heimdall through net/http (HTTP/1.1 origin-form target) or through the Envoy ext_authz request "
-                    "context (path attribute without query); X-Forwarded-Uri delivery is not driven",
-                    "every rule of the modelled rule sets has backtracking enabled (C02-F1/C14 cover the flag)",
-                    "the request path contains no '?' (the query is a separate input)"],
+                "every run (stream gourl); url.Parse for X-Forwarded-Uri is modelled for values whose path starts with exactly one '/' "
+                "and has no '#' (the stream stays inside that domain)",
+                "glob / regex path_params are oracle tables recorded from the real matchers per case (a value missing from the table "
+                "does not match in the model)",
+                "the pipeline behind Execute accepts (stub authenticator); the upstream URL is C15's model (create_url_q); only the PATH of "
+                "its request line is compared and specified here",
+                "history independence (o_stable) is compared by the driver (reflect.DeepEqual of the two observations)"],
+    "level_text": ("Proof (kernel-checked, no axioms) over a Gallina model of the three ways a request path reaches the rules (net/http "
+                  "target parsing + extractURL, X-Forwarded-Uri, Envoy), FindRule's choice of the raw path, the route lookup (segment-wise), "
+                  "pathParamMatcher and ruleImpl.Execute.  For ALL rule sets, default-rule settings, request paths and ALL equivalent "
+                  "re-encodings: answer kind, rule and captured values are unchanged unless some path expression matches one spelling and "
+                  "not the other (C08-F1, open; the guard fires on ~30% of the generated re-encodings, of which 1 in 6 is "
+                  "over-approximated); a path with %2F/%2f is never accepted by an `off` rule or the default rule (outside C08-F4 via "
+                  "net/http, without any guard via Envoy) and is answered with the precondition error whenever every matching path "
+                  "expression belongs to an `off` rule; every accepted request was matched by a path expression that matches the path as "
+                  "spelled, and its captured values are exactly the segments at that expression's wildcards, decoded per setting "
+                  "(`no_decode`: all but the encoded slash; proved correct without guard); a `no_decode` rule sends upstream the path as "
+                  "it is after its prefix rewriting.  Findings have `_refuted` witnesses.  The model is tied to the code by five "
+                  "differential streams per run (~800 request pairs through the real net/http server/repository/executor, ~400 through the "
+                  "real Envoy request context, ~400 through X-Forwarded-Uri, each with a history run; ~1500 unescape units, ~2500 net/url "
+                  "cases; 30000/15000/15000/30000/40000 in the thorough tier)."),
+    "level_note": ("Trusted: Coq kernel/vm_compute; the correspondence harness (generator, stub authenticator, oracle tables of the real "
+                  "glob/regex matchers, Gallina rendering); the radix tree abstracted to a segment-wise search (C02/C03 own the tree).  "
+                  "Correspondence compares kind, rule, captures and the path of the upstream request line only; the property predicate is "
+                  "built from C08/Spec.v on the implementation's observation.  Open findings C08-F1 (raw-path lookup), C08-F4 (bytes "
+                  "net/url refuses), C08-F6 (X-Forwarded-Uri that does not parse falls back to the proxy's own path; candidate "
+                  "fixes/C08-F6.diff, model variant repaired_F6) are guarded, observed on every run and documented by `_refuted` theorems; "
+                  "C08-F2/F3/F5 were repaired by fix: commits a779db8, 72ba5d4, 6d0a3af (theorems are stated for the repaired tree, the "
+                  "earlier behaviour is kept as `_pinned_refuted`).  After an independent audit (docs/audit/C08.md) the check catches the "
+                  "auditor's mutants (lookup cache keyed by the decoded path, decoding only for exact matchers, X-Forwarded-Uri "
+                  "canonicalisation, error-handler detour, OPTIONS exemption, length/shape-limited decoders, rewriter regressions)."),
+    "assumptions": ["every rule of the modelled rule sets has backtracking enabled and no host/method/scheme restriction (C02-F1/C03/C14 cover "
+                    "those); the method of the request is varied and must not matter",
+                    "the request path contains no '?' and no '#' (the query is a separate input)",
+                    "status codes of the decision/proxy services and the wire format towards the upstream are not observed (the "
+                    "executor's error kind and Backend.URL().RequestURI() are); C12/C13/C15 own those layers"],
 }
